@@ -311,6 +311,19 @@ theorem handshake_gate (code size : Nat) (dec g n v : Bool) :
 
 /-! ### hypotheses are satisfiable -/
 
+/-- "only the offending peer is dropped": when the import of a downloaded batch fails, `Downloader.process` drops
+    `blocks[index].OriginPeer` — the peer that delivered the element at the index `InsertChain` returned — where `raw[i]` is
+    `blocks[i].RawBlock` (the batch is handed over in order), and every index `chainBridge.InsertChain` returns out of its insert
+    loop is `index + start`: the position in the batch as it was HANDED OVER, not in what is left of it after the momentums the
+    node already holds were removed from its front (AST facts of the working tree). The stream `p2p-net` assembles such batches
+    from the deliveries of two peers (a forged momentum from one, everything else — and a known prefix of 1 or K momentums —
+    from an honest one) and checks on the wire that exactly the deliverer of the forged momentum is disconnected. -/
+theorem import_failure_blames_deliverer :
+    Gen.DownloaderProcessDropArgs = ["blocks[index].OriginPeer"] ∧
+    Gen.DownloaderProcessInsert = ["for _, block := range blocks[:max] { raw = append(raw, block.RawBlock) }",
+      "index, err := d.insertChain(raw)"] ∧
+    Gen.InsertChainLoopReturnIndex = ["index + start", "index + start", "index + start", "index + start"] := by decide
+
 /-- a capped, ordinary request: 5 hashes ending at height 7 on a chain of 10. -/
 example : onGetHashes 10 (some 7) 5 = .hashes [3, 4, 5, 6, 7] := by decide
 /-- from-number with wrap-free arithmetic, reply is frontier-first. -/
